@@ -288,6 +288,87 @@ def transport_check(tier, res):
                                 sig[key] = {"clause": clause, "disc": key[1], "what": what, "count": 1, "replay": {"transport": side, "enc": enc, "pieces": [len(p) for p in pieces]}}
                     finally:
                         loop.teardown()
+    # ---- the client's BLOB connection: a message far longer than the default threshold, cut everywhere / read(1024)
+    import base64
+
+    import indi.message as M
+    from indi.message import one_parts
+
+    raw = bytes((k * 7) % 256 for k in range(2600))
+    big = M.SetBLOBVector(device="D", name="B", state="Ok", children=[one_parts.OneBLOB(name="a", size=len(raw), format=".b", value=base64.b64encode(raw).decode())]).to_string()
+    small = M.SetTextVector(device="D", name="T", state="Ok", children=[one_parts.OneText(name="a", value="after")]).to_string()
+    data = small + big + small
+    feeds = [[data], [data[j : j + 1024] for j in range(0, len(data), 1024)], [data[j : j + 7] for j in range(0, len(data), 7)]] + [[data[:c], data[c:]] for c in range(1, len(data), 41)]
+    for pieces in feeds:
+        loop = V.VLoop().install()
+        try:
+            got = []
+            ep = V.Endpoint(loop, "b")
+            h = ClientH(ep.reader, ep.writer, got.append, for_blobs=True)
+            task = loop.create_task(h.wait_for_messages())
+            loop.quiesce()
+            for p in pieces:
+                ep.feed(p)
+                loop.quiesce()
+            res["transitions"] += len(pieces)
+            res["states"] += 1
+            kinds = [type(m).__name__ for m in got]
+            ok = kinds == ["SetTextVector", "SetBLOBVector", "SetTextVector"] and not task.done()
+            if ok:
+                ok = base64.b64decode(got[1].children[0].value) == raw
+            if not ok:
+                key = ("fragmentation-dependent-delivery", "transport=client-blob-connection,long-message")
+                if key in sig:
+                    sig[key]["count"] += 1
+                else:
+                    sig[key] = {"clause": key[0], "disc": key[1], "what": "BLOB connection (threshold disabled), %d-byte message, pieces %r...: delivered %r, loop ended=%s" % (len(big), [len(p) for p in pieces][:4], kinds, task.done()), "count": 1, "replay": {"transport": "client-blob", "pieces": [len(p) for p in pieces][:8]}}
+        finally:
+            loop.teardown()
+    # ---- the TTY transport reads LINES: streams whose messages span several lines (indented children, one attribute
+    # per line, text values with inner newlines, blank lines between messages)
+    import io
+
+    from indi.transport.server.tty import ConnectionHandler as TtyH
+
+    ttext = ('<?xml version="1.0"?>\n<getProperties version="1.7"/>\n\n'
+             '<newTextVector\n    device="D"\n    name="N">\n  <oneText name="a">first line\nsecond line\n\nfourth line</oneText>\n</newTextVector>\n'
+             '   \n<newNumberVector device="D" name="M"><oneNumber name="x">1.5</oneNumber></newNumberVector>\n<getProperties version="1.7" device="D"/>')
+    lines = ttext.splitlines(keepends=True)
+    loop = V.VLoop().install()
+    try:
+        got = []
+        router = Router()
+
+        class Rec2(Device):
+            def accepts(self, device):
+                return True
+
+            def message_from_client(self, message):
+                got.append(message)
+
+        router.register_device(Rec2())
+        src = V.LineSource()
+        in_ctl = V.CtlExecutor()
+        h = TtyH(router, V.aio_text(src, loop, in_ctl), V.aio_text(io.StringIO(), loop, V.CtlExecutor()))
+        task = loop.create_task(h.handle())
+        loop.quiesce()
+        for ln in lines:
+            src.supply(ln)
+            for _ in range(50):
+                loop.quiesce()
+                if len(in_ctl) and src.available():
+                    in_ctl.run(0)
+                else:
+                    break
+        loop.quiesce()
+        res["transitions"] += len(lines)
+        res["states"] += 1
+        kinds = [type(m).__name__ for m in got]
+        text = got[1].children[0].value if len(got) > 1 and getattr(got[1], "children", None) else None
+        if kinds != ["GetProperties", "NewTextVector", "NewNumberVector", "GetProperties"] or text != "first line\nsecond line\n\nfourth line" or task.done():
+            sig[("fragmentation-dependent-delivery", "transport=tty,multi-line")] = {"clause": "fragmentation-dependent-delivery", "disc": "transport=tty,multi-line", "count": 1, "what": "TTY: delivered %r, text %r, handler ended=%s" % (kinds, text, task.done()), "replay": {"transport": "tty"}}
+    finally:
+        loop.teardown()
     res["violations"] = list(sig.values())
     res["counters"]["transport_feeds"] = res["states"]
     return res
